@@ -88,6 +88,17 @@ def call_by_contract(eng, st, key, fn, args, kwargs, line):
 
                 results.append((s2, _Raised(ExcV(exc, (line,)))))
                 st.assume(V.b_not(c))
+        ens0 = unit.opts.get("call_ensures")
+        ens0 = list(ens0.items()) if ens0 else [(l, t) for l, t in unit.ensures if not l.startswith("lemma.")]
+        if unit.opts.get("may_return_none"):
+            # second normal outcome: the call returns None (the postconditions hold of result = None)
+            s_none = st.copy()
+            ex0 = {"result": None}
+            ex0.update(olds)
+            for label, text in ens0:
+                s_none.assume(eng.truthy(s_none, eval_text(eng, s_none, fid, text, ex0)))
+            if eng.feasible(s_none):
+                results.append((s_none, None))
         res = unit.returns(eng, st, fid) if callable(unit.returns) and getattr(unit.returns, "_ctx", False) else make_result(eng, st, f"{cname}.ret", unit.returns, fid)
         extra = {"result": res}
         extra.update(olds)
